@@ -75,24 +75,34 @@ mod verif {
     }
     fn any_wf_log() -> (Log, [(u8, u8, u8); LOG_CAP], usize) {
         let mut b = B { recs: [const { None }; LOG_CAP], meta: [(0u8, 0u8, 0u8); LOG_CAP], n: 0, off: 50, complete: 0 };
-        // first transaction: complete
+        // first transaction: single, complete pair, or a pair cut after 1 or 2 events (a crash, after which the writer reopened
+        // and kept appending: Writer::open resumes after the last intact RECORD, so an uncommitted tail stays in the log)
         let shape1: u8 = kani::any();
-        kani::assume(shape1 <= 1);
-        if shape1 == 0 { b.ev(1, 0, 1, true); } else { b.ev(1, 0, 2, false); b.ev(1, 1, 2, false); b.commit(1, 2); }
-        b.complete = b.n;
+        kani::assume(shape1 <= 3);
+        if shape1 == 0 { b.ev(1, 0, 1, true); }
+        if shape1 == 1 { b.ev(1, 0, 2, false); b.ev(1, 1, 2, false); b.commit(1, 2); }
+        if shape1 == 2 { b.ev(1, 0, 2, false); }
+        if shape1 == 3 { b.ev(1, 0, 2, false); b.ev(1, 1, 2, false); }
         // second transaction: absent, single, complete pair, or a pair cut after 1 or 2 events
         let shape2: u8 = kani::any();
         kani::assume(shape2 <= 4);
-        if shape2 == 1 { b.ev(2, 0, 1, true); b.complete = b.n; }
-        if shape2 == 2 { b.ev(2, 0, 2, false); b.ev(2, 1, 2, false); b.commit(2, 2); b.complete = b.n; }
+        if shape2 == 1 { b.ev(2, 0, 1, true); }
+        if shape2 == 2 { b.ev(2, 0, 2, false); b.ev(2, 1, 2, false); b.commit(2, 2); }
         if shape2 == 3 { b.ev(2, 0, 2, false); }
         if shape2 == 4 { b.ev(2, 0, 2, false); b.ev(2, 1, 2, false); }
         (Log { recs: b.recs, n: b.n }, b.meta, b.complete)
     }
     fn offset_of(log: &Log, i: usize) -> u64 { match log.recs[i].as_ref().unwrap() { Record::Event(e) => e.offset, Record::Commit(c) => c.offset } }
 
-    fn check(log: &Log, meta: &[(u8, u8, u8); LOG_CAP], complete: usize, start: usize, r: Result<(Option<CommittedEvents>, Option<u64>), ReadError>) {
-        let (res, next) = r.expect("reading at a record boundary of a well-formed log never fails");
+    /// does the transaction that record i belongs to have its commit record in the log?
+    fn committed(log: &Log, meta: &[(u8, u8, u8); LOG_CAP], i: usize) -> bool {
+        if meta[i].2 == 1 { return true; }
+        let mut j = 0;
+        while j < log.n { if meta[j].0 == meta[i].0 && matches!(log.recs[j], Some(Record::Commit(_))) { return true; } j += 1; }
+        false
+    }
+    fn check(log: &Log, meta: &[(u8, u8, u8); LOG_CAP], _complete: usize, start: usize, r: Result<(Option<CommittedEvents>, Option<u64>), ReadError>) {
+        let (res, next) = match r { Ok(x) => x, Err(_) => { assert!(false, "reading at a record boundary of a well-formed log never fails"); loop {} } };
         match res {
             Some(CommittedEvents::Single(e)) => {
                 assert!(e.offset == offset_of(log, start), "a single event is the record at the requested offset");
@@ -103,26 +113,31 @@ mod verif {
                 // the commit record is in the log
                 let mut j = start;
                 while j < log.n && offset_of(log, j) != commit.offset { j += 1; }
-                assert!(j < log.n && j < complete, "a transaction is returned only if its commit record is in the log");
-                assert!(matches!(log.recs[j], Some(Record::Commit(_))));
+                assert!(j < log.n && matches!(log.recs[j], Some(Record::Commit(_))), "a transaction is returned only if its commit record is in the log");
                 assert!(next == Some(commit.offset + COMMIT_SIZE as u64));
                 let (txn, _, k) = meta[j];
                 assert!(commit.event_count == k as u32);
-                // the events are exactly the records from the start offset up to the commit, all of this transaction
-                assert!(events.len() >= 1 && events.len() == j - start, "every sibling event between the requested offset and the commit is returned");
-                assert!(meta[start].0 == txn, "no event of another transaction is mixed in");
+                let cnt = events.len();
+                assert!(cnt >= 1 && cnt <= j - start, "events lie between the requested offset and the commit");
+                let first = j - cnt;
+                // the returned events are exactly the records immediately before the commit, all of the commit's transaction
                 let mut i = 0;
-                while i < events.len() {
-                    assert!(events[i].offset == offset_of(log, start + i) && events[i].transaction_id == commit.transaction_id, "events carry the commit's transaction id, in log order");
+                while i < cnt {
+                    assert!(events[i].offset == offset_of(log, first + i) && events[i].transaction_id == commit.transaction_id && meta[first + i].0 == txn, "only events of the committed transaction, in log order, none of another transaction");
                     i += 1;
                 }
-                if meta[start].1 == 0 { assert!(events.len() == k as usize, "read from its first event, a transaction is returned with ALL of its events"); }
+                // everything skipped before them belongs to transactions whose commit record is missing
+                let mut s = start;
+                while s < first { assert!(!committed(log, meta, s), "only events of uncommitted transactions are skipped"); s += 1; }
+                // all-or-nothing: every sibling from the requested offset on is returned; from its first event: ALL of them
+                if meta[start].0 == txn { assert!(first == start, "every sibling event between the requested offset and the commit is returned"); }
+                if meta[first].1 == 0 { assert!(cnt == k as usize, "read from its first event, a transaction is returned with ALL of its events"); }
             }
             None => {
                 match next {
                     None => {
-                        // ran off the end: everything from `start` on belongs to a transaction whose commit is missing
-                        assert!(start >= complete || meta[start].0 == meta[log.n - 1].0 && log.n > complete, "nothing is returned only for a transaction whose commit record is missing");
+                        // ran off the end
+                        assert!(!committed(log, meta, start), "nothing is returned only for a transaction whose commit record is missing");
                     }
                     Some(nx) => {
                         assert!(matches!(log.recs[start], Some(Record::Commit(_))), "a skipped record is a commit record read on its own");
